@@ -236,8 +236,8 @@ def c11d(ctx, tu):
             it, e = range_vars(fn)
             found_var = None
             for b, ev in fn.events():
-                if ev["e"] == "decl" and tname(ev.get("init")) == "std::find_if":
-                    found_var = ev["var"]
+                if ev["e"] == "decl" and any(tname(c) == "std::find_if" for c in lib.tree_calls(ev.get("init"))):
+                    found_var = ev["var"]     # (C++14: wrapped in an elidable iterator copy)
 
             def classify(f, ev, env, it=it, found_var=found_var):
                 k = ev["e"]
